@@ -8,7 +8,8 @@ N2  every state at a Some(position) construction in airborne_position has one pa
     older and the other parity for the newer report.
 N3  the returned latitude lies in [-90, 90] and is not NaN; panic obligations of
     airborne_position (incl. `nl(lat) - 1`).
-Not decided: 10 m accuracy, longitude in [-180, 180), "None only when the NL bands differ".
+N4  a position is only built under the guard NL(lat_even) = NL(lat_odd); the longitude is not NaN.
+Not decided: 10 m accuracy, longitude in [-180, 180), "None only when the NL bands differ" (the converse of N4).
 """
 import math
 
@@ -43,8 +44,13 @@ def run(prog, rep, tier):
     # ---- N1
     E = runner.make_engine(prog, K=512)
     pt = T('o', ('p', 'lat'))
-    rets = runner.run_entry(E, f_nl, [E.reg(('F', -INF, INF, True, pt))])
+    rets = runner.run_entry(E, f_nl, [E.reg(('F', -INF, INF, False, pt))])
     rep.absorb_engine(E, rule='N1-no-panic')
+    # NaN separately: every comparison is false
+    En = runner.make_engine(prog, K=8)
+    nrets = runner.run_entry(En, f_nl, [('F', INF, -INF, True, None)])
+    nanvals = sorted(set(En.scalar(st, v)[1] for st, v in nrets if En.scalar(st, v)[0] == 'I'))
+    rep.check(nanvals == [1], 'N1-nl-table', 'nl#nan-input', '%s:%s' % (f_nl['file'], f_nl['line']), 'nl(NaN) returns %s (expected the polar value 1)' % nanvals, nontrivial=False)
     site = '%s:%s' % (f_nl['file'], f_nl['line'])
     bands = {0: [], 1: []}        # sign -> [(lo, hi, value)]
     nanret = []
@@ -53,21 +59,26 @@ def run(prog, rep, tier):
         if r[0] != 'I' or r[1] != r[2]:
             rep.fail('N1-nl-table', 'nl#constant-returns', site, 'a return path of nl() does not return a constant: %s' % A.show_val(r))
             continue
-        lo, hi = 0.0, INF
+        # bounds carry closedness: (value, closed?)
+        lo, hi = (0.0, True), (INF, False)
         neg = None
         other = False
         for f in st.facts:
-            if f[0] not in ('Lt', 'Ge') or f[2][0] != 'c':
+            if f[0] not in ('Lt', 'Ge', 'Le', 'Gt') or f[2][0] != 'c':
                 other = other or (f[0] in A.CMPS)
                 continue
             tm, c = f[1], f[2][1]
-            if tm == pt and c == 0.0:
+            if tm == pt and c == 0.0 and f[0] in ('Lt', 'Ge'):
                 neg = f[0] == 'Lt'
                 continue
-            if f[0] == 'Lt':
-                hi = min(hi, c)
+            if f[0] in ('Lt', 'Le'):
+                cand = (c, f[0] == 'Le')
+                if cand[0] < hi[0] or (cand[0] == hi[0] and not cand[1]):
+                    hi = cand
             else:
-                lo = max(lo, c)
+                cand = (c, f[0] == 'Ge')
+                if cand[0] > lo[0] or (cand[0] == lo[0] and not cand[1]):
+                    lo = cand
         if other:
             rep.fail('N1-nl-table', 'nl#only-constant-comparisons', site, 'nl() branches on something else than `lat < constant`')
         if neg is None:
@@ -76,26 +87,31 @@ def run(prog, rep, tier):
         bands[1 if neg else 0].append((lo, hi, r[1]))
     rep.floor('return paths of nl()', len(rets), 100)
     for sign in (0, 1):
-        bl = sorted(b for b in bands[sign] if b[0] < b[1])
+        bl = sorted(b for b in bands[sign] if b[0][0] < b[1][0] or (b[0][0] == b[1][0] and b[0][1] and b[1][1]))
         name = 'negative' if sign else 'non-negative'
         vals = [b[2] for b in bl]
         ok = vals == list(range(59, 0, -1))
         rep.check(ok, 'N1-nl-table', 'nl#values-%s' % name, site, 'bands for %s latitudes return %s, expected 59..1' % (name, vals))
-        cover = bool(bl) and bl[0][0] == 0.0 and bl[-1][1] == INF and all(bl[i][1] == bl[i + 1][0] for i in range(len(bl) - 1))
+        cover = bool(bl) and bl[0][0] == (0.0, True) and bl[-1][1][0] == INF and all(
+            bl[i][1][0] == bl[i + 1][0][0] and bl[i][1][1] != bl[i + 1][0][1] for i in range(len(bl) - 1))
         rep.check(cover, 'N1-nl-table', 'nl#exhaustive-%s' % name, site, 'bands for %s latitudes do not tile [0, inf)' % name)
         if not ok:
             continue
         for lo, hi, k in bl:
             if k == 1:
-                rep.check(lo == 87.0, 'N1-nl-table', 'nl#break-%s-NL=1' % name, site, 'NL = 1 starts at %r, expected 87' % lo, nontrivial=True)
+                # DO-260B A.1.7.2 d: NL = 2 at exactly 87 degrees, NL = 1 beyond
+                rep.check(lo == (87.0, False), 'N1-nl-table', 'nl#break-%s-NL=1' % name, site,
+                          'NL = 1 starts at %r (%s); the standard gives NL = 2 at exactly 87 and NL = 1 only beyond' % (lo[0], 'inclusive' if lo[1] else 'exclusive'),
+                          nontrivial=True)
                 continue
+            hi = hi[0]
             want = nl_break(k) if k > 2 else 87.0
             err = abs(hi - want)
             rep.check(err <= 5.001e-9, 'N1-nl-table', 'nl#break-%s-NL=%d' % (name, k), site,
                       'upper limit of NL = %d is %.8f, the formula gives %.10f (off by %.3g)' % (k, hi, want, err),
                       sample={'NL': k, 'upper_limit': hi, 'formula': round(want, 10)} if k in (59, 30, 3) and not sign else None)
     rep.check(nanret == [1] or not nanret, 'N1-nl-table', 'nl#nan', site, 'paths without a sign fact (NaN) return %s' % nanret, nontrivial=False)
-    # ---- N2 / N3
+    # ---- N2 / N3 / N4
     E = runner.make_engine(prog, K=16)
     apt = util.adt_type(prog, 'decode::bds::bds05::AirbornePosition')
     if apt is None:
@@ -128,18 +144,58 @@ def run(prog, rep, tier):
                 return sorted(pname[i] for i, _ in p[2]) if p != A.BOT and p[0] == 'E' else None
             lat = E_.scalar(st, E_.operand(st, frame, stmt['rv']['ops'][0]))
             lon = E_.scalar(st, E_.operand(st, frame, stmt['rv']['ops'][1]))
-            somes.append((par(c_old), par(c_new), lat, lon, stmt.get('sp')))
+            eqs = [(tg[2], tg[3]) for tg in st.tags if tg[0] == 'G']
+            somes.append((par(c_old), par(c_new), lat, lon, stmt.get('sp'), eqs))
     E.stmt_hook = hook
+    tokens = {}
+
+    def token(t):
+        if t not in tokens:
+            tokens[t] = T('tok', len(tokens))
+        return tokens[t]
+
+    class NlHook:
+        """nl() is summarised as the pure function it was shown to be in N1: equal argument terms
+        give the same result term nl(<token of the argument>)"""
+        def entry(self, E_, nf, ins):
+            E_.gc_roots.add((nf.depth, 1))
+
+        def exit(self, E_, nf, rets):
+            for i, (st, v) in enumerate(rets):
+                a = E_.scalar(st, st.cells[(nf.depth, 1)]) if (nf.depth, 1) in st.cells else None
+                r = E_.scalar(st, v)
+                if r[0] == 'I' and a is not None and a[0] == 'F' and a[4] is not None:
+                    rets[i] = (st, E_.reg(mk_int(1, 59, 0, T('nl', token(a[4])))))      # range shown by N1
+    E.hooks[f_nl['id']] = NlHook()
+    # passing the guard nl(x) == nl(y), x != y, is remembered as a path tag (tags are intersected at
+    # joins and states with different tags are never merged)
+    orig_assume = E.assume
+
+    def assume(st, t, truth):
+        r = orig_assume(st, t, truth)
+        if r and t is not None and t[0] in ('Ne', 'Eq') and len(t) == 3 and t[1][0] == 'nl' and t[2][0] == 'nl' and t[1] != t[2] \
+                and (truth == (t[0] == 'Eq')):
+            st.tags = st.tags | {('G', 'nl', t[1][1], t[2][1])}
+        return r
+    E.assume = assume
 
     def pre(E_, st, fr):
         st.cells[c_old] = mkmsg(E_, 'oldest')
         st.cells[c_new] = mkmsg(E_, 'latest')
     rets = runner.run_entry(E, f_ap, [('R', c_old, (), False), ('R', c_new, (), False)], pre=pre)
     n = rep.absorb_engine(E, rule='N3-no-panic')
-    rep.floor('obligations in airborne_position', n, 3)
+    rep.floor('obligations in airborne_position', n, 2)
     rep.floor('Some(position) states', len(somes), 2)
     seen_pairs = set()
-    for po, pn, lat, lon, sp in somes:
+    for po, pn, lat, lon, sp, eqs in somes:
+        site = '%s:%s' % (f_ap['file'], sp)
+        okq = lat[0] == 'F' and lat[4] is not None and any(tokens.get(lat[4]) in e for e in eqs)
+        rep.check(okq, 'N4-same-zone-band', 'airborne_position#some-needs-equal-NL', site,
+                  'a position is produced on a path that did not pass the guard NL(returned latitude) = NL(the other parity\'s latitude) (guards passed: %d)' % len(eqs),
+                  sample={'guard': 'NL(returned latitude) == NL(the other latitude)', 'guards_passed_on_path': len(eqs)})
+        okn = lon[0] == 'F' and not lon[3]
+        rep.check(okn, 'N3-longitude-not-nan', 'airborne_position#longitude-nan', site, 'returned longitude may be NaN: %s' % A.show_val(lon),
+                  sample={'longitude_interval': [lon[1], lon[2]], 'nan': lon[3]} if lon[0] == 'F' else None)
         site = '%s:%s' % (f_ap['file'], sp)
         ok = po is not None and pn is not None and len(po) == 1 and len(pn) == 1 and po != pn
         rep.check(ok, 'N2-opposite-parity', 'airborne_position#some-needs-opposite-parity', site,
